@@ -57,6 +57,7 @@ IMPL = {
     "wit_deser": _wit_deser,
     "outpoint": lambda t, i: _bits().tx.outpoint(t, i),
     "txin": lambda o, s, q: _bits().tx.txin(o, s, sequence=q),
+    "txin_default": lambda o, s: _bits().tx.txin(o, s),          # default sequence argument
     "txout": lambda v, s: _bits().tx.txout(v, s),
     "tx_raw": lambda i, o, v, l, w: _bits().tx.tx(list(i), list(o), version=v, locktime=l, script_witnesses=list(w)),
     "tx_ser": lambda t: txgen.api_ser(txgen.norm_tx(t)),
@@ -192,6 +193,7 @@ def _tx_cases(rng, T):
                         rng.choice([0, 1, (1 << 32) - 1, 1 << 32, -1, rng.randrange(1 << 32)])))
         out.append(case("raw-txin", "txin", rng.randbytes(36), rng.randbytes(rng.choice([0, 1, 252, 253, 300])),
                         rng.choice(txgen.SEQS + [b"", b"\x01"])))
+        out.append(case("raw-txin-default-sequence", "txin_default", rng.randbytes(36), rng.randbytes(rng.choice([0, 1, 25]))))
         out.append(case("raw-txout", "txout", rng.choice([0, 1, (1 << 64) - 1, 1 << 64, -1, rng.randrange(1 << 64)]),
                         rng.randbytes(rng.choice([0, 25, 252, 253]))))
         wl = rng.choice([[], [b""], [b"\x00"], [b"\x00", b"\x01\x02"], [rng.randbytes(4)]])
@@ -420,6 +422,11 @@ def prop_oracle(c):
             return None
         t, used = p
         return roundtrip_statement(txgen.norm_tx(t), buf[used:])
+    if op == "txin_default":
+        import bits.tx as m
+        if m.txin(a[0], a[1]) != a[0] + txgen.ref_var(a[1]) + b"\xff\xff\xff\xff":
+            return "txin(outpoint, script) does not end with the final sequence ffffffff"
+        return None
     if op in ("txin_deser", "txout_deser"):
         import bits.tx as m
         buf = a[0]
